@@ -12,6 +12,12 @@ CHECKS = {
          "histories of at most 15 transactions; porcupine time-outs are counted inconclusive; writes outside transactions are excluded as the property excludes them"),
  "C06": ("exploration", "4 (C06)", "2-8 client tasks put (unique values), get and delete on 1-4 keys while flush, log rotation and compaction run under the seeded scheduler with injected stalls; invoke/return stamped with a global event counter; final reads, also after a restart, appended; porcupine checks one register per key; a failed write has no effect in the model",
          "at most ~55 operations per key; porcupine time-outs are counted inconclusive, never reported"),
+ "C13": ("exploration", "4 (C13)", "primary and 1-2 replica engines with the real replication Primary/Replica/EngineApplier over a simulated, adversarial gRPC transport (whole stream messages dropped, duplicated, swapped; unary calls failing before/after the handler; resets, partitions, stalled readers); a recorder around the replica's applier checks after EVERY applied entry that the entry is a write of the primary step with its sequence number, that the replay of all applied entries is an entry-level prefix state of the primary's history, and that GetLastAppliedSequence() never decreased nor exceeded what was applied in full (also sampled every 37 ms); final engine scan equals the recorder's replay",
+         "stubs: gRPC/HTTP2/TCP (simnet) and replication.Manager (its start-up is mirrored); single writer on a fresh primary so that step i carries sequence i; replicas are not restarted here (a restart replays from sequence 1 by design); where several prefixes fit a state the oracle credits the longest"),
+ "C14": ("exploration", "4 (C14)", "the same cluster with 1-3 replicas: scripts interleave the primary's workload (puts, deletes, batches, multi-key transactions, flushes = log rotations, pauses) with replica joins before/during/after the writes, orderly restarts, process kills, connection resets, partitions and stalled readers; then all faults stop and every replica must scan equal to the reference model's final state within 120 unstalled virtual seconds, and still 5 s later",
+         "bounded liveness on the simulator's clock (scheduler-injected stalls excluded); a restarted replica counts as arrived only once its new incarnation has applied the log to the primary's end (it replays from sequence 1); a primary write that gives up on a log rotation (stall-induced, unrelated to replication) abandons the run as inconclusive"),
+ "C15": ("exploration", "4 (C15)", "primary with 0-2 healthy replicas and 1-3 scripted misbehaving peers of the replication service (never reads, reads slowly, never acknowledges, nonsense Ack/Nack, Ack/Nack while not reading, vanishes, opens streams in a row) with flow-control windows of 64-256 KB, while 1-3 clients write up to 16 KB values: every primary operation must succeed within 5 virtual seconds, vanished and window-blocked peers must leave Primary.GetReplicaInfo within heartbeat timeout + 2 intervals + 5 s, healthy replicas must still converge",
+         "no scheduler-injected stalls in this check (a parked primary thread defeats kevo's 3 x 10 ms wait for a log rotation with or without replicas); flow control is modelled per stream at gRPC's minimum window or above, never tighter than real gRPC"),
  "C16": ("exploration", "4 (C16)", "a replica engine (read-only flag set, real EngineApplier fed by an applier task) while client tasks call methods taken at run time from the method sets of *engine.EngineFacade and the service server with arguments synthesised from parameter types; the full-scan fingerprint must equal the model of replicated operations after every client call (alternating phases) or at the end (concurrent, exploring the applier's read-only window); calls classified mutating must return a read-only error; GetNodeInfo must be truthful",
          "bypass methods (*Internal), Close, SetReadOnly and GetWAL are excluded as non-client entry points; the replication manager is constructed but not started (no sockets), the flag is set as startReplica sets it"),
  "C19": ("exploration", "4 (C19)", "request programmes over every service method, with transactions interleaved by handle, boundary-size keys/values/batches and finished or unknown handles; handlers called in-process with requests and responses passed through proto.Marshal/Unmarshal; every response compared with the reference map that judges the embedded API; rejected requests must leave data and open handles untouched",
